@@ -136,12 +136,23 @@ def run_concrete(case) -> list[tuple[str, str]]:
     from mc import faultio  # noqa: PLC0415
 
     for label, data in concrete_variants(cls, preset, name, tuple(case.get("flags", (True, True, None)))):
+        def after_preamble(k: int):
+            r = io.BufferedReader(faultio.ScheduleRaw(b"P" * k + data, seekable=True),
+                                  buffer_size=16)
+            r.read(k)
+            return r
+
         for api, source in (("generic", "bytesio"), ("generic", "raw"), ("generic", "buffered"),
-                            ("rdflib", "bytesio"), ("rdflib", "raw")):
+                            ("rdflib", "bytesio"), ("rdflib", "raw"),
+                            ("generic", "preamble14"), ("generic", "preamble15"),
+                            ("generic", "tinybuf")):
             src = {"bytesio": lambda: io.BytesIO(data),
                    "raw": lambda: faultio.ScheduleRaw(data),
-                   "buffered": lambda: io.BufferedReader(faultio.ScheduleRaw(data, default=5))}[
-                       source]()
+                   "buffered": lambda: io.BufferedReader(faultio.ScheduleRaw(data, default=5)),
+                   "preamble14": lambda: after_preamble(14),
+                   "preamble15": lambda: after_preamble(15),
+                   "tinybuf": lambda: io.BufferedReader(
+                       faultio.ScheduleRaw(data, seekable=True), buffer_size=2)}[source]()
             try:
                 evs = (DR.g_read if api == "generic" else DR.r_read)(data, "flat", src=src)
                 got = DR.stmts_of(evs)
@@ -187,7 +198,7 @@ def concrete_shard(job) -> dict:
                     continue
                 case = {"level": "stream", "cls": cls, "preset": list(PRESETS[3]), "name_len": n,
                         "ascii": True, "flags": [True, True, None], "frame_length": t}
-                acc.evals += 5 * 5
+                acc.evals += 5 * 8
                 acc.nontrivial += 5
                 acc.extra.setdefault("headers", set()).update(
                     d[:3].hex() for _, d in concrete_variants(cls, PRESETS[3], "n" * n))
@@ -203,7 +214,7 @@ def concrete_shard(job) -> dict:
                     for flags in (FLAGS if nlen <= 12 else FLAGS[-1:]):
                         case = {"level": "stream", "cls": cls, "preset": list(preset),
                                 "name_len": nlen, "ascii": ascii_, "flags": list(flags)}
-                        acc.evals += 5 * 5
+                        acc.evals += 5 * 8
                         acc.nontrivial += 5
                         acc.extra.setdefault("headers", set()).update(
                             d[:3].hex() for _, d in concrete_variants(
@@ -245,7 +256,9 @@ def run(ctx) -> None:
             "non-delimited: 0A varint(R) 0A); non-trivial = headers the grammar classifies; plus "
             "real streams for every stream_name length in both modes, re-cut with an options-only "
             "first frame and with leading empty frames, parsed by both integrations from BytesIO, a "
-            "non-seekable raw source and a buffered non-seekable source; plus exact first-frame "
+            "non-seekable raw source, a buffered non-seekable source and seekable buffered files whose "
+            "buffer holds only 1-2 bytes of the stream (payload after a consumed preamble, "
+            "buffering=2); plus exact first-frame "
             "lengths at the varint boundaries 127/128, 16383/16384..16512 and 2^21"
         ),
     )
